@@ -34,6 +34,12 @@ use similar::{
     Change, ChangeTag, DiffOp, TextDiff,
 };
 
+static THOROUGH: std::sync::atomic::AtomicBool = std::sync::atomic::AtomicBool::new(false);
+/// enumeration bound: `q` in the quick tier, `q + 1` in the thorough tier (`replay <MODE> thorough`)
+fn bd(q: usize) -> usize {
+    if THOROUGH.load(std::sync::atomic::Ordering::Relaxed) { q + 1 } else { q }
+}
+
 const ALGS: [Algorithm; 3] = [Algorithm::Myers, Algorithm::Patience, Algorithm::Lcs];
 const ERR_BASE: usize = 1000;
 
@@ -507,13 +513,13 @@ fn raw_modes(mode: &str, max_len: usize, expired: bool, cases: &mut u64) -> Opti
 }
 
 fn c01(cases: &mut u64) -> Option<String> {
-    raw_modes("C01", 6, false, cases)
+    raw_modes("C01", bd(6), false, cases)
 }
 
 /// C07: only "expired before the start" can be scheduled through the public API (the algorithms
 /// read the clock themselves; there is no injectable clock), so mid-run expiry is not covered here.
 fn c07(cases: &mut u64) -> Option<String> {
-    if let Some(w) = raw_modes("C07", 6, true, cases) {
+    if let Some(w) = raw_modes("C07", bd(6), true, cases) {
         return Some(w);
     }
     if let Some(w) = c07_builder_plumbing(cases) {
@@ -697,7 +703,7 @@ fn c07_clock(cases: &mut u64) -> Option<String> {
     let far = Instant::now() + Duration::from_secs(1_000_000);
     let rules = Rules { carried: Carried::WithinRun, finish: Fin::OnceAndLast, nonempty: true };
     let lax = Rules { carried: Carried::Ignore, finish: Fin::Ignore, nonempty: false };
-    let small = seqs(3, 5);
+    let small = seqs(3, bd(5));
     let mut inputs: Vec<(String, Vec<u32>, Vec<u32>, bool)> = Vec::new();
     for o in &small {
         for n in &small {
@@ -866,7 +872,7 @@ fn c06_bytes(b: &[u8]) -> Result<(), String> {
 fn c06(cases: &mut u64) -> Option<String> {
     let alpha: [char; 11] = ['a', ' ', '\n', '\r', '\u{a0}', '\u{e9}', '\u{2028}', '\u{3000}', '\u{85}', '\u{301}', '\u{1f600}'];
     let mut layer: Vec<String> = vec![String::new()];
-    for _len in 0..=5 {
+    for _len in 0..=bd(5) {
         for s in &layer {
             *cases += 1;
             match guard(|| c06_str(s)) {
@@ -884,7 +890,7 @@ fn c06(cases: &mut u64) -> Option<String> {
     }
     let balpha: [u8; 11] = [b'a', b' ', b'\n', b'\r', 0xC3, 0xA9, 0xFF, 0xE2, 0x80, 0xA8, 0x00];
     let mut layer: Vec<Vec<u8>> = vec![vec![]];
-    for _len in 0..=5 {
+    for _len in 0..=bd(5) {
         for b in &layer {
             *cases += 1;
             match guard(|| c06_bytes(b)) {
@@ -894,6 +900,79 @@ fn c06(cases: &mut u64) -> Option<String> {
             }
         }
         layer = layer.iter().flat_map(|s| balpha.iter().map(move |c| { let mut t = s.clone(); t.push(*c); t })).collect();
+    }
+    None
+}
+
+
+// ---------------------------------------------------------------------------------------------
+// C05 byte-writer clause: "the byte writer emits every line's bytes unchanged - identical to Display for UTF-8
+// input, while Display equals the lossy decoding of the writer's output otherwise"
+// ---------------------------------------------------------------------------------------------
+fn c05_bytes(cases: &mut u64) -> Option<String> {
+    // lines over bytes: 'a', 'b', and an invalid UTF-8 byte; texts of 0..=3 lines, optionally unterminated
+    let line_bodies: [&[u8]; 4] = [b"a", b"b", b"\xff", b"a\xfeb"];
+    let mut texts: Vec<Vec<u8>> = vec![vec![]];
+    let mut layer: Vec<Vec<u8>> = vec![vec![]];
+    for _ in 0..bd(3) {
+        let mut next = Vec::new();
+        for t in &layer {
+            for l in &line_bodies {
+                let mut x = t.clone();
+                x.extend_from_slice(l);
+                x.push(b'\n');
+                next.push(x);
+            }
+        }
+        texts.extend(next.iter().cloned());
+        layer = next;
+    }
+    let mut unterminated: Vec<Vec<u8>> = texts.iter().filter(|t| !t.is_empty()).map(|t| t[..t.len() - 1].to_vec()).collect();
+    texts.append(&mut unterminated);
+    for o in &texts {
+        for n in &texts {
+            for radius in [0usize, 3] {
+                for header in [false, true] {
+                    *cases += 1;
+                    let r = guard(|| {
+                        let d = TextDiff::from_lines(&o[..], &n[..]);
+                        let mut u = d.unified_diff();
+                        u.context_radius(radius);
+                        if header { u.header("a", "b"); }
+                        let mut out: Vec<u8> = Vec::new();
+                        u.to_writer(&mut out).unwrap();
+                        let shown = u.to_string();
+                        // expected body lines: one per change of every hunk, tag byte + the token's bytes
+                        let mut want: Vec<Vec<u8>> = Vec::new();
+                        for h in u.iter_hunks() {
+                            for ch in h.iter_changes() {
+                                let mut l = vec![match ch.tag() { ChangeTag::Equal => b' ', ChangeTag::Delete => b'-', ChangeTag::Insert => b'+' }];
+                                l.extend_from_slice(ch.value());
+                                want.push(l);
+                            }
+                        }
+                        (out, shown, want)
+                    });
+                    let ctx = format!("C05 byte writer: TextDiff::from_lines(old={:?}, new={:?}).unified_diff().context_radius({}){}", o, n, radius, if header { ".header(\"a\",\"b\")" } else { "" });
+                    let (out, shown, want) = match r { Ok(x) => x, Err(p) => return Some(format!("{}: {}", ctx, p)) };
+                    // every change line must appear in the writer's output with its bytes unchanged, in order
+                    let mut pos = 0usize;
+                    for l in &want {
+                        match out[pos..].windows(l.len()).position(|w| w == &l[..]) {
+                            Some(k) => pos += k + l.len(),
+                            None => return Some(format!("{}: to_writer output {:?} does not contain the change line {:?} with its bytes unchanged (clause: the byte writer emits every line's bytes unchanged)", ctx, out, l)),
+                        }
+                    }
+                    let valid = std::str::from_utf8(o).is_ok() && std::str::from_utf8(n).is_ok();
+                    if valid && out != shown.as_bytes() {
+                        return Some(format!("{}: to_writer output {:?} differs from Display {:?} on UTF-8 input", ctx, out, shown));
+                    }
+                    if !valid && shown != String::from_utf8_lossy(&out) {
+                        return Some(format!("{}: Display {:?} is not the lossy decoding of the writer's output {:?}", ctx, shown, out));
+                    }
+                }
+            }
+        }
     }
     None
 }
@@ -1071,7 +1150,7 @@ fn c08(cases: &mut u64) -> Option<String> {
             }
         }
     }
-    let all = seqs(3, 4);
+    let all = seqs(3, bd(4));
     for o in &all {
         for n in &all {
             for &alg in &ALGS {
@@ -1161,7 +1240,7 @@ fn c02_one(ctx: &str, ops: &[DiffOp], old: &[u32], or: Range<usize>, new: &[u32]
 }
 
 fn c02(cases: &mut u64) -> Option<String> {
-    let all = seqs(3, 5);
+    let all = seqs(3, bd(5));
     for o in &all {
         let (oa, or) = embed_old(o);
         let ot = to_text(o);
@@ -1270,7 +1349,7 @@ fn c02_large_shapes() -> Vec<(&'static str, Vec<u32>, Vec<u32>)> {
 }
 
 fn c03(cases: &mut u64) -> Option<String> {
-    let spaces = [seqs(3, 6), seqs(2, 8)];
+    let spaces = [seqs(3, bd(6)), seqs(2, bd(8))];
     for all in &spaces {
         for o in all {
             let (oa, or) = embed_old(o);
@@ -1352,7 +1431,7 @@ fn check_normal_form(ops: &[DiffOp], new: &[u32]) -> Result<(), String> {
 }
 
 fn c09(cases: &mut u64) -> Option<String> {
-    let all = seqs(3, 6);
+    let all = seqs(3, bd(6));
     for o in &all {
         for n in &all {
             for &alg in &ALGS {
@@ -1375,7 +1454,7 @@ fn c09(cases: &mut u64) -> Option<String> {
 }
 
 fn c11(cases: &mut u64) -> Option<String> {
-    let all = seqs(3, 5);
+    let all = seqs(3, bd(5));
     let exact = Rules { carried: Carried::Exact, finish: Fin::Ignore, nonempty: false };
     for o in &all {
         let (oa, or) = embed_old(o);
@@ -1819,7 +1898,7 @@ fn c13(cases: &mut u64) -> Option<String> {
             }
         }
     }
-    let all = seqs(3, 5);
+    let all = seqs(3, bd(5));
     for o in &all {
         let ot = to_text(o);
         for n in &all {
@@ -2137,6 +2216,9 @@ fn c04(cases: &mut u64) -> Option<String> {
 // ---------------------------------------------------------------------------------------------
 fn main() {
     let mode = std::env::args().nth(1).unwrap_or_default();
+    if std::env::args().nth(2).as_deref() == Some("thorough") {
+        THOROUGH.store(true, std::sync::atomic::Ordering::Relaxed);
+    }
     install_panic_hook();
     let mut cases = 0u64;
     let t0 = Instant::now();
@@ -2144,6 +2226,7 @@ fn main() {
         "C01" => (c01(&mut cases), "alphabet {0,1,2}, len 0..=6, 3 algorithms x (embedded sub-range, guarded Index, extracted slices)"),
         "C07" => (c07(&mut cases), "alphabet {0,1,2}, len 0..=6, deadline expired at entry, raw algorithms + capture_diff_deadline; builder plumbing; work after expiry <= 8(N+M)+16 on 6 shapes of 40 and 300 items"),
         "C07clock" => (c07_clock(&mut cases), "virtual clock (cfg similar_verif): alphabet {0,1,2} len 0..=5 x every deadline check k, plus 6 shapes of 120 items x sampled k; valid script, finish once, never-expiring == no deadline, work after expiry <= 8(N+M)+16"),
+        "C05bytes" => (c05_bytes(&mut cases), "[u8] line texts (feature bytes) of 0..=3 lines over {a, b, 0xFF, a 0xFE b}, terminated or not, radius 0/3, header on/off: UnifiedDiff::to_writer keeps every change line's bytes, equals Display on UTF-8, Display is its lossy decoding otherwise"),
         "C06" => (c06(&mut cases), "str: all strings of length 0..=5 over 11 scalars (ASCII, CR, LF, NBSP, U+2028, U+3000, U+0085, combining mark, 2- and 4-byte chars) + 4 longer texts; [u8]: all byte strings of length 0..=5 over 11 bytes incl. invalid UTF-8; lines / lines_and_newlines / words / chars; str vs [u8] on the same bytes"),
         "C08" => (c08(&mut cases), "alphabet {0,1,2}, len 0..=4, 6 hook stacks x 2 hook kinds x every failing call index"),
         "C02" => (c02(&mut cases), "alphabet {0,1,2}, len 0..=5, deadline none/expired, slices + sub-ranges + TextDiff chars; 12 text diffs of 101..260 tokens through the integer-mapping path"),
@@ -2166,7 +2249,7 @@ fn main() {
             std::process::exit(1);
         }
         None => {
-            println!("NONE {} cases={} bounds: {} ({:.1}s)", mode, cases, bounds, t0.elapsed().as_secs_f64());
+            println!("NONE {} cases={} bounds: {}{} ({:.1}s)", mode, cases, bounds, if bd(0) == 1 { " [thorough tier: every sequence-length bound above is raised by one]" } else { "" }, t0.elapsed().as_secs_f64());
         }
     }
 }
